@@ -23,12 +23,17 @@ TRUSTED = ["validators are parameters of the model (Env.validate); the driver in
            "preserved by clone; library traits are identified by handler identity",
            "class-trait dictionaries of HasTraits/HasStrictTraits/HasPrivateTraits are restored before every case "
            "(they cache resolved prefix traits process-wide)"]
-ASSUMPTIONS = ["no change handlers are attached (call_notifiers is never entered on the modelled paths)",
+ASSUMPTIONS = ["multiple inheritance: the model merges the bases' tables in the order of the bases (as the code does); "
+               "Python's C3 order is computed by the oracle only, not modelled in Lean",
+               "no change handlers are attached (call_notifiers is never entered on the modelled paths)",
                "trait_added keeps its HasTraits declaration, so the event fired by get_prefix_trait/add_trait is a "
                "no-op for resolution",
-               "delegate and property traits are outside the generated universe (C11/C12); the delegate-shadow "
-               "branch of __prefix_trait__ is modelled but not exercised; theorems that need it carry NoDeleg",
-               "single inheritance in generated hierarchies (the model's mkClass takes any list of bases)",
+               "property traits are outside the model (C12). Delegate traits: only their *resolution* is modelled (the "
+               "`name_` shadow branch of __prefix_trait__, exercised by a dedicated stream with DelegatesTo('dg'), dg "
+               "left at None, compared by correspondence only); their access semantics is an opaque callback (C11); "
+               "every theorem about policies / coherence carries NoDeleg (no delegate trait in the world)",
+               "generated hierarchies: linear chains of 1-3 levels, plus a stream of two-base classes (independent "
+               "chains and diamonds with a valid C3 order)",
                "add_class_trait after instances exist is outside the quantifier (DESIGN section 7)"]
 EXHAUSTIVE = {"quick": False, "thorough": True}
 
@@ -44,9 +49,15 @@ def corpus():
         # ReadOnly: read first (stores Undefined), define once, refuse afterwards
         "res|cls A H r=RO@1,r_=RO@2,k=RO:i7@3;new a A;get a .r;set a .r u;set a .r i1;set a .r i2;get a .r;"
         "del a .r;set a .k i1;get a .k;set a .rq i1;set a .rq i1;get a .rq",
+        # ReadOnly with a default other than Undefined (None, 0, '') is never assignable
+        "res|cls A H n=RO:n@1,z=RO:i0@2,e_=RO:s@3;new a A;set a .n i1;get a .n;set a .z i1;get a .z;set a .ex sa;get a .ex;"
+        "set a .n u;set a .n n",
         # longest prefix over three levels, own wildcard overrides inherited one
         "res|cls A H x_=Int@1;cls B A xy_=Str@2,x_=Any@3;cls C B xyx_=Dis@4;new c C;new b B;new a A;"
         "set c .xyxx i1;set c .xyy i1;set c .xyy sa;set c .xq sa;set b .xyxx i1;set b .xyxx sa;set a .xyxx sa;set a .xyxx i1",
+        # two bases: the first base's merged tables win over the MRO (known finding)
+        "res|cls A H -;cls B S -;cls D A,B -;new d D;set d .foo i1;cls E B,A -;new e E;set e .foo i1",
+        "res|cls A H x=Int@1,q_=Int@2;cls B A x=Str@3,q_=Str@4;cls C A -;cls D C,B -;new d D;set d .x sa;set d .qq sa",
         # strict / private defaults, instance trait shadows and is removed again
         "res|cls A S -;cls B P -;new a A;new b B;get a .u;set a .u i1;del a .u;get b .u;get b ._u;set b ._u sa;"
         "get b ._u;add a .u Int@9;set a .u i3;get a .u;rem a .u;get a .u;set a .u i1",
@@ -55,7 +66,7 @@ def corpus():
 
 def generate(rng, tier):
     if tier == "quick":
-        yield from R.exhaustive_names(2)
+        yield from R.exhaustive_names(3)
         nh, nl, nm = 2600, 300, 100
     elif tier == "thorough":
         yield from R.exhaustive_names(4)
@@ -69,6 +80,10 @@ def generate(rng, tier):
         yield R.random_history(rng, late_subclass=True)
     for _ in range(nm):
         yield R.malformed_history(rng)
+    for _ in range(nl):
+        yield R.mi_history(rng)
+    for _ in range(nl):
+        yield R.deleg_history(rng)
 
 
 def _hit(sig, what, **kw):
@@ -98,7 +113,17 @@ def run_impl(case):
     robj = {}
     late = {}              # real class -> names whose resolution it inherited from a base's cache
     over_value = set()     # (id(obj), name): add_trait applied while __dict__ held a value
+    written = set()        # (real class, name): some instance of the class wrote the name
     outs, hits, tags = [], [], set()
+    # names that are delegates somewhere in the case: they and their `name_` shadows are resolved by the
+    # delegate rule of __prefix_trait__, which the property text does not cover (correspondence only)
+    delegs = set()
+    for op in ops.split(";"):
+        w = op.split()
+        if w and w[0] == "cls" and len(w) == 4:
+            delegs |= {it.split("=")[0] for it in R.list_field(w[3]) if "=Deleg" in it}
+        elif w and w[0] == "add" and len(w) == 4 and w[3].startswith("Deleg"):
+            delegs.add(w[2][1:])
     for op in [o.strip() for o in ops.split(";") if o.strip()]:
         words = op.split()
         try:
@@ -151,9 +176,19 @@ def run_impl(case):
         real = out.rsplit(" g=", 1)[0]
         g = info["g"]
         tags.add(name_class(name))
+        if name.rstrip("_") in delegs:      # `v`, `v_`, `v__`, ...: each shadows the (cached) one before
+
+            tags.add("delegate-rule(correspondence only)")
+            if k == "add":
+                o.itraits[name] = R.decl_of_spec(words[3])
+            elif k == "rem":
+                o.itraits.pop(name, None)
+            continue
         tags.add("out:" + " ".join(real.split()[:2]) if real.startswith("err") else "out:" + real.split()[0])
         mismatch = None
         d = route = None
+        if k in ("set", "del"):
+            written.add((type(info["obj"]), name))
         if k in ("get", "set", "del"):
             exp, d, route = R.expect(o, k, name, words[3] if k == "set" else None)
             tags.add("route:" + route)
@@ -205,7 +240,9 @@ def run_impl(case):
             if mismatch is None and g not in ("-", str(d.tag)):
                 mismatch = "_trait(%r, 0) after _trait(.., %d): #%s, expected #%d" % (name, mode, g, d.tag)
         if mismatch is not None:
-            sig = classify(k, name, info, real, g, d, route, late.get(type(info["obj"]), ()), over_value)
+            sig = classify(k, name, info, real, g, d, route, late.get(type(info["obj"]), ()), over_value,
+                           (type(info["obj"]), name) in written,
+                           any(len(c.bases) > 1 for c in o.cls.mro()))
             tags.add("hit:" + sig.split(":")[0])
             hits.append(_hit(sig, mismatch, op=op))
             # one defect, one hit: continue from the value the object really holds
@@ -217,18 +254,25 @@ def run_impl(case):
     return " ; ".join(outs), hits, tags
 
 
-def classify(k, name, info, real, g, d, route, late_names, over_value):
+def classify(k, name, info, real, g, d, route, late_names, over_value, was_written, multi):
     """Name the input class / call site of a deviation (known findings are matched on it)."""
     reading = k in ("get", "trt")
     if R.is_dunder(name) and route != "instance":
         if g == str(R.TAG_ANY_TRAIT):
-            return "dunder:cached-any-governs-read" if reading else "dunder:write-governed-by-any"
+            if not reading:
+                return "dunder:write-governed-by-any"
+            if was_written or name in late_names:
+                return "dunder:cached-any-governs-read"
+            return "dunder:read-governed-by-any-without-earlier-write"
         if reading and g == "-" and real.startswith("err AttributeError"):
             return "dunder:read-ignores-wildcard"
         return "dunder:other:%s" % k
     if name in late_names:
         return "late-subclass-inherits-resolved-prefix-cache"
+    if multi and route != "instance":
+        return "multiple-inheritance:merged-base-tables-not-mro"
     if k == "get" and info["pre"] is not R.MISSING and real == "val " + R.show_val(info["pre"]) \
             and (id(info["obj"]), name) in over_value and d.kind in ("event", "disallow", "constant"):
-        return "stale-dict-value-read-after-add_trait:" + d.kind
-    return "resolution:%s:%s/%s:observed[%s]" % (k, route, d.kind, " ".join(real.split()[:2]))
+        return "stale-dict-value-read-after-add_trait"
+    return "resolution:%s:%s" % ("read" if reading else "remove" if k == "rem" else "add" if k == "add" else "write",
+                                 route)
